@@ -14,7 +14,6 @@ import (
 	"math/rand"
 	"net"
 	"os"
-	"runtime"
 	"sort"
 	"strings"
 	"sync"
@@ -174,7 +173,6 @@ type nlWorld struct {
 }
 
 var nlWorldSeq int64
-var nlDumped int64
 var nlWgOK = func() bool {
 	var wg sync.WaitGroup
 	wg.Add(3)
@@ -268,7 +266,9 @@ func (w *nlWorld) connect(c int) nlObs {
 		for time.Now().Before(dl) && srv == nil && !cl.IsClosed() {
 			w.ll.mu.Lock()
 			for ss, g := range w.ll.sessions {
-				if !w.known[ss] {
+				// the server end of THIS connection: both ends know the queue path (a late server session of an
+				// abandoned earlier attempt must not be mistaken for it)
+				if !w.known[ss] && ss.sessionName() == cl.sessionName() {
 					w.known[ss] = true
 					srv, wg = ss, g
 				}
@@ -279,11 +279,6 @@ func (w *nlWorld) connect(c int) nlObs {
 			}
 		}
 		if srv == nil || cl.IsClosed() {
-			if os.Getenv("VS_NL_LOG") != "" && atomic.AddInt64(&nlDumped, 1) == 1 {
-				buf := make([]byte, 4<<20)
-				n := runtime.Stack(buf, true)
-				os.WriteFile("/tmp/c19s/stack.txt", []byte(fmt.Sprintf("srv=%v clClosed=%v\n%s", srv != nil, cl.IsClosed(), buf[:n])), 0o644)
-			}
 			cl.Close()
 			note = "session pair dead on arrival (server session not registered or client session closed at once)"
 			w.cnt["connect_retries"]++
@@ -952,6 +947,23 @@ func (w *nlWorld) exec(op string, a []int, cands []nlCand) (nlObs, []string) {
 		got = w.lclose()
 	case "sessclose":
 		got = w.sessclose(a[0])
+	case "race_write_sclose":
+		// staged interleaving (found by TLC with Sync = FALSE): the client's Write is still on its way when the server
+		// closes the conn - no settle between the two calls
+		// closes the conn - no settle between the two calls. The event loop is held off for the two calls through the
+		// dispatcher's own mutex (the loop takes it around every batch of events), so the order is not left to chance.
+		var gate *sync.Mutex
+		if d, ok := defaultDispatcher.(*epollDispatcher); ok {
+			gate = &d.lock
+			gate.Lock()
+		}
+		got = w.write(0, a[0], a[1], a[2])
+		if got.res == "ok" {
+			got = w.sclose(a[0], a[1])
+		}
+		if gate != nil {
+			gate.Unlock()
+		}
 	default:
 		got = nlObs{res: "err", note: "unknown op " + op}
 	}
@@ -1023,6 +1035,13 @@ func (w *nlWorld) step(op string, a []int, cands []nlCand) nlStepOut {
 		}
 		if time.Now().After(dl) {
 			m = -1
+			// a hand-written step has no predicted state: not coming to rest within the limit (overloaded machine) is
+			// not an observation about the code as long as the result of the call is the expected one
+			for i, c := range cands {
+				if len(c.proj) == 0 && c.e.Res == got.res && nlEqInts(c.e.RN, got.rn) && nlEqStrs(c.e.Comps, comps) {
+					m = i
+				}
+			}
 			break
 		}
 		iter++
@@ -1497,8 +1516,6 @@ func (r *nlRun) runPath(p *nlPath, worker int, seed int64) {
 	}
 	r.merge(w, p.Name, steps, drift, viol, "path")
 }
-
-var nlKickStop chan struct{}
 
 // keep the shared epoll loop turning: dispatcher lambdas (session teardown) only run when epoll_wait returns
 func nlStartKicker(dir string) func() {
